@@ -9,7 +9,8 @@ RULE = ("all label layouts of length 1..L over 2..4 declared classes x the param
         "random class, semi, label smoothing, one-hot); bulk accessor (the library's getall utility) vs per-sample accessor, label "
         "range vs the wrapper's class-shape query, wrapped data and the wrapped label list untouched, same arguments + seed give "
         "the same mapping under a different global RNG state, encodings non-negative / sum one / original class at the maximum, "
-        "and a bulk-consuming wrapper (sort-by-class) on top; distinct = distinct (wrapper, parameters, layout, labels)")
+        "a bulk-consuming wrapper (sort-by-class) on top, and label smoothing on binary datasets (class shape (1,)) with unlabeled "
+        "samples; distinct = distinct (wrapper, parameters, layout, labels)")
 
 REJECT = (AssertionError, NotImplementedError)
 _LIB = {}
@@ -277,6 +278,44 @@ def check(name, kw, lay, C, p, inner=None):
     p.observe((name, repr(sorted(case["kwargs"].items(), key=str)), tuple(root_lay), inner[0] if inner else None, repr(per)))
 
 
+def binary_smoothing(p, maxlen):
+    """Binary datasets (class shape (1,), scalar labels 0/1) with unlabeled samples: the one wrapper that has an explicit
+    binary branch. A smoothed label stays on its side of 0.5 inside [0, 1]; an unlabeled sample stays the -1 marker."""
+    L = lib()
+    for n in range(1, maxlen + 1):
+        for lay in itertools.product((0, 1, -1), repeat=n):
+            for sm in (0, 0.0, 0.1, 0.5, 1.0):
+                for below in (None, "SemiWrapper"):
+                    base = L["Base"](lay, 1)
+                    case = dict(binary=True, layout=list(lay), smoothing=sm, below=below)
+                    tag = f"|LabelSmoothingWrapper|binary{'|on_top_of=SemiWrapper' if below else ''}"
+                    p.evaluations += 1
+                    try:
+                        inner = build("SemiWrapper", base, dict(semi_percent=0.5, seed=0)) if below else base
+                        src = [tolist(inner.getitem_class(i)) for i in range(n)]
+                        w = build("LabelSmoothingWrapper", inner, dict(smoothing=sm))
+                        out = [tolist(w.getitem_class(i)) for i in range(n)]
+                    except REJECT:
+                        p.count("rejected")
+                        continue
+                    except Exception as e:
+                        p.violation(f"C16:exception_at_getitem:{type(e).__name__}{tag}", case, f"labels {list(lay)} smoothing {sm}: {e!r}")
+                        continue
+                    for i, (y, v) in enumerate(zip(src, out)):
+                        flat = v if isinstance(v, list) else [v]
+                        if y == -1:
+                            ok = all(x == -1 for x in flat)
+                        else:
+                            ok = len(flat) == 1 and abs(flat[0] - (1 - sm / 2 if y == 1 else sm / 2)) < 1e-6
+                        if not ok:
+                            p.violation(f"C16:{'unlabeled_marker_lost' if y == -1 else 'encoding_malformed'}{tag}", case,
+                                        f"binary labels {src} smoothing {sm}: sample {i} (label {y}) became {v}")
+                            break
+                    else:
+                        p.observe(("binary_smoothing", lay, sm, below, repr(out)))
+    return p
+
+
 STACK_MAXLEN = [3]
 
 
@@ -290,6 +329,8 @@ def layouts(maxlen):
 def task(items):
     p = Partial()
     L = lib()
+    if items and items[0] == "binary":
+        return binary_smoothing(p, items[1])
     for lay, C in items:
         stacks = [None] + (inner_menu(C) if len(lay) <= STACK_MAXLEN[0] else [])
         for inner in stacks:
@@ -320,7 +361,7 @@ def run(run):
     STACK_MAXLEN[0] = 3 if run.tier == "quick" else 4
     lays = list(layouts(maxlen))
     chunk = 8 if run.tier == "quick" else 24
-    run.pmap(task, [lays[i:i + chunk] for i in range(0, len(lays), chunk)][::-1])
+    run.pmap(task, [lays[i:i + chunk] for i in range(0, len(lays), chunk)][::-1] + [("binary", maxlen)])
     run.extra.update(bounds=dict(layout_len=f"1..{maxlen}", classes="2..4",
                                  stacked=f"every wrapper also on top of each class-count-changing wrapper {sorted({i[0] for i in inner_menu(4)})} "
                                          f"for layouts of length <= {STACK_MAXLEN[0]}"), layouts=len(lays))
@@ -334,6 +375,9 @@ def run(run):
 def replay(case):
     import torch
     p = Partial()
+    if case.get("binary"):
+        binary_smoothing(p, len(case["layout"]))
+        return None if not p.violations else "; ".join(m for _, m in list(p.violations.values())[:3])
     kw = dict(case["kwargs"])
     if "pseudo_labels" in kw:
         kw["pseudo_labels"] = torch.tensor(kw["pseudo_labels"])
